@@ -398,10 +398,43 @@ pub fn destructure_shape(shape: u8, toks: Vec<Tok>) -> Vec<Tok> {
             konst::destructure! {GT::<Tok>, (a, _) = v}
             vec![a]
         }
-        _ => {
+        17 => {
             let v = [nx(), nx(), nx(), nx(), nx(), nx(), nx(), nx()];
             konst::destructure! {[_, (b), c, .., x, y, _] = v}
             vec![b, c, x, y]
+        }
+        18 => {
+            let v = [nx(), nx(), nx(), nx(), nx()];
+            konst::destructure! {[rest @ .., z] = v}
+            let rest: [Tok; 4] = rest;
+            let mut out: Vec<Tok> = rest.into_iter().collect();
+            out.push(z);
+            out
+        }
+        19 => {
+            let v = [nx(), nx(), nx(), nx(), nx()];
+            konst::destructure! {[a, rest @ ..] = v}
+            let rest: [Tok; 4] = rest;
+            let mut out = vec![a];
+            out.extend(rest);
+            out
+        }
+        20 => {
+            let v = [nx(), nx(), nx()];
+            konst::destructure! {[..] = v}
+            vec![]
+        }
+        21 => {
+            let v = S3 { x: nx(), y: nx(), z: nx() };
+            konst::destructure! {crate::worlds::byvalue_ops::S3 {x, y, z} = v}
+            vec![x, y, z]
+        }
+        _ => {
+            let v = [nx()];
+            konst::destructure! {[a] = v}
+            let w = [nx()];
+            konst::destructure! {[_] = w}
+            vec![a]
         }
     }
 }
